@@ -19,7 +19,7 @@ from common import hx, unhx
 
 GROUP = "velocity"
 FILES = ["gen/Gen_velocity.v", "gen/Gen_velocity_utils.v", "gen/Gen_pathlines.v", "Model_pathlines.v", "Proofs_velocity.v", "Inst_velocity.v",
-         "Proofs_pathlines.v", "Inst_pathlines.v", "Proofs_pathline_gen.v", "Model_pathline_session.v",
+         "Proofs_pathlines.v", "Inst_pathlines.v", "Proofs_pathline_gen.v", "Proofs_pathline_exact.v", "Model_pathline_session.v",
          "Proofs_pathline_session.v", "Entry_velocity.v", "Extract_velocity.v"]
 GEN_MODULES = ("velocity", "pathlines")
 METHODS = ("RK45", "RK23", "DOP853", "Radau", "BDF", "LSODA")      # ordinals used by the generated request vector
@@ -425,6 +425,9 @@ def check_pathline(chk, spec, rec, stats):
     # ---- the stateful event: replay the recorded call history through the extracted model
     calls = rec["calls"]
     have_model = os.path.exists(os.path.join(common.EXTRACT, GROUP, "driver"))     # absent only in a bare replay
+    # `--replay` does not rebuild: the code GENERATED from the source inside the driver may come from another tree than
+    # the one being replayed, so a replay judges with the property clauses and the hand-written model only
+    use_generated = have_model and not os.environ.get("C18_REPLAY_MODE")
     if calls and have_model:
         xs = [ms] + list(mn) + list(mx) + list(ps)
         for (t, y, _) in calls:
@@ -442,13 +445,15 @@ def check_pathline(chk, spec, rec, stats):
                 fails.append(f"terminal event call {j}: implementation returned {calls[j][2]!r}, model {m[1][j]!r}")
         # ... and through the closure GENERATED from the source (state threaded from call to call, initial
         # state read off the generated request)
-        if g[0] != "OK":
+        if not use_generated:
+            pass
+        elif g[0] != "OK":
             fails.append(f"terminal event: generated closure raises {g[1]} on the recorded call history")
         else:
             okc, j = common.vec_close([c[2] for c in calls], g[1][:-2], rtol=1e-9, atol=1e-12 * ms)
             if not okc:
                 fails.append(f"terminal event call {j}: implementation returned {calls[j][2]!r}, generated closure {g[1][j]!r}")
-    if rec.get("request") is not None and have_model:
+    if rec.get("request") is not None and use_generated:
         g = common.run_model([common.model_line("gen_request", [], list(p) + list(mn) + list(mx) + [ms])], group=GROUP)[0]
         stats["requests_compared"] = stats.get("requests_compared", 0) + 1
         rq = rec["request"]
@@ -881,6 +886,9 @@ def _digest(rec):
     return [hx(a) for a in ts], X
 
 
+SESSION_TIMEOUTS = [0]      # calls of this process that hit PATHLINE_TIMEOUT_S
+
+
 def run_scenario(sc):
     """Execute one scenario in THIS process; every returned pathline is checked against ITS OWN flow with
     the clauses of check_pathline.  Returns one dict per `path` step."""
@@ -900,7 +908,16 @@ def run_scenario(sc):
             gc.collect()
         else:
             spec = step_spec(flowdef[st["slot"]], st)
+            if SESSION_TIMEOUTS[0] >= 3:
+                # do not spend PATHLINE_TIMEOUT_S on each of the remaining calls (a changed tree whose pathlines do not terminate)
+                out.append({"exc": ["TimeoutError", "not run: three earlier calls of this session did not return"], "known": False,
+                            "known_sigs": [], "fails": ["get_pathline was not called: three earlier calls of this session did not return "
+                                                        f"within {PATHLINE_TIMEOUT_S} s"], "solver_called": False, "event_calls": 0,
+                            "ts": None, "X": None, "stats": {k: 0 for k in ("event_calls", "event_forward_jumps", "end_error_max",
+                                                                            "outside_max", "strain_ratio_max", "ode_residual_max")}})
+                continue
             rec = run_pathline(spec, callables=slots[st["slot"]], raw_args=_make_args(st, spec, shared))
+            SESSION_TIMEOUTS[0] += int(rec["exc"] is not None and rec["exc"][0] == "TimeoutError")
             stats = new_stats()
             try:
                 fails = check_pathline(chk_dummy, spec, rec, stats)
@@ -946,7 +963,7 @@ def session_main(infile, outfile):
         json.dump({"results": res}, f)
 
 
-SESSION_ENV_KEEP = ("PATH", "HOME", "LANG", "LD_LIBRARY_PATH", "TMPDIR", "VIRTUAL_ENV", "NUMBA_CACHE_DIR", "PYDREX_REPO")
+SESSION_ENV_KEEP = ("PATH", "HOME", "LANG", "LD_LIBRARY_PATH", "TMPDIR", "VIRTUAL_ENV", "NUMBA_CACHE_DIR", "PYDREX_REPO", "C18_REPLAY_MODE")
 # A defect that depends on recycled object addresses depends on the allocator's state, and that state depends on
 # everything the interpreter allocated since start-up -- even on the size of the environment.  The session
 # interpreter therefore gets a fixed, minimal environment (check, search and replay then see the same heap
@@ -1062,6 +1079,8 @@ def compare_sessions(chk, scenarios, results, stats, known_path_points):
             # ---- the oracle on its own
             key = solver_key(fd, st)
             if key not in refs:
+                if sum(1 for v in refs.values() if v["exc"] is not None and v["exc"][0] == "TimeoutError") >= 3:
+                    continue        # a tree whose pathlines do not terminate: already reported three times over
                 refs[key] = run_pathline(spec[:8] + (None,), module=fresh_pathlines_module())
             ref = refs[key]
             if ref["exc"] is not None or r["exc"] is not None:
@@ -1258,8 +1277,28 @@ chk_dummy = _Dummy()
 def explained_by_finding(flow, hl, vl, ps, x, fail):
     """True iff this oracle failure is exactly the documented defect of shear / cell"""
     u, L = make_flow(flow, hl, vl, ps)
-    G = np.asarray(L(np.nan, np.asarray(x, dtype=float)))
+    x = np.asarray(x, dtype=float)
+    G = np.asarray(L(np.nan, x))
     h, v = ordl(hl), ordl(vl)
+    # the findings are about the GRADIENT callables; the velocity callable must be the documented field (at x and at
+    # two displaced points), otherwise the mismatch is something else
+    def field(y):
+        w = np.zeros(3)
+        if flow == 0:
+            w[h] = y[v] * ps[0]
+        else:
+            w[h] = ps[0] * math.cos(math.pi * y[h] / ps[1]) * math.sin(math.pi * y[v] / ps[1])
+            w[v] = -ps[0] * math.sin(math.pi * y[h] / ps[1]) * math.cos(math.pi * y[v] / ps[1])
+        return w
+    if flow in (0, 1):
+        s_ = max(float(np.abs(x).max()), 1e-300) if flow == 0 else abs(ps[1])
+        for dy in (np.zeros(3), 1e-3 * s_ * np.eye(3)[h], -1e-3 * s_ * np.eye(3)[v]):
+            try:
+                got = np.asarray(u(np.nan, x + dy))
+            except ValueError:
+                continue
+            if np.abs(got - field(x + dy)).max() > 1e-9 * abs(ps[0]) * (max(1.0, s_) if flow == 0 else 1.0):
+                return False
     if flow == 0:
         # the only non-zero entry is [h, v] and it equals 2 * strain_rate
         Z = G.copy(); Z[h, v] = 0
@@ -1414,8 +1453,16 @@ def run(chk):
                                            "n_timestamps": int(len(rec["ts"])), "event_calls": len(rec["calls"])})
             for f in fails:
                 path_bad.append((spec, f))
-        seq_results = finish_sessions_subprocess(session)
-        seq_bad = compare_sessions(chk, scenarios, seq_results, stats, known_path_points)
+        try:
+            seq_results = finish_sessions_subprocess(session)
+        except RuntimeError as e:
+            # the session interpreter crashed / did not finish: a correspondence failure of the session model, not a
+            # machinery error -- the failing-input search below still runs
+            seq_results = None
+            seq_bad = [(scenarios[0], f"the call-sequence run did not complete: {str(e)[:300]}")]
+            chk.cov["call_sequences"] = {"calls": 0, "error": str(e)[:300]}
+        if seq_results is not None:
+            seq_bad = compare_sessions(chk, scenarios, seq_results, stats, known_path_points)
         chk.cov["traces_validated_against_impl"] = len(kc) + stats["pathlines"] + chk.cov["call_sequences"]["calls"]
     stats["strain_ratios"] = sorted(stats["strain_ratios"])[-8:]
     sigs = stats.pop("known_signatures", {})
@@ -1499,6 +1546,7 @@ def run(chk):
 
 
 def replay(d):
+    os.environ["C18_REPLAY_MODE"] = "1"
     common.use_repo_source()
     quiet()
     if d.get("kind") != "property-violation":
